@@ -119,9 +119,6 @@ def writer_specs():
                         WRITER_W, writer_inv(), group="io"))
         out.append(Spec("writer.%s.io_flush" % e, dict(name="flush", trait_is="std::io::Write", self_is=r"impls::buf_bit_writer::BufBitWriter<%s, WW, WP>" % ety),
                         WRITER_W, writer_inv(), group="io"))
-    bw = ("arg", 1, "buf_bit_writer")
-    out.append(Spec("writer.flush_be", dict(path="impls::buf_bit_writer::flush_be"), WRITER_W, writer_inv(bw), self_base=bw))
-    out.append(Spec("writer.flush_le", dict(path="impls::buf_bit_writer::flush_le"), WRITER_W, writer_inv(bw), self_base=bw))
     return out
 
 
